@@ -6,7 +6,12 @@ C = "paramiko.channel.Channel."
 T = "paramiko.transport.Transport."
 TARGETS = [C + f for f in ("_send", "recv", "recv_stderr", "_feed_extended", "close", "shutdown", "_request_failed", "_handle_close")]
 TARGETS += [(T + "_send_user_message", "gate", {})]
-REPLAY = {"*": "c11.replay_rekey_gate"}
+REPLAY = {"*": "c11.replay_rekey_gate", "_send_user_message": "c11.inflight_request_during_exchange",
+          "_parse_newkeys": "c11.inflight_request_during_exchange"}
+BOUNDED = [("c11.inflight_request_during_exchange", "a channel request wanting a reply in flight towards the side that started a "
+            "re-exchange (either side, link latency 0.3 s): the exchange completes, the session stays up, data flows afterwards"),
+           ("c11.keepalive_due_during_exchange", "a keepalive falling due while the peer's NEWKEYS is held back 1.2 s, for a "
+            "re-exchange started by the byte threshold, by the client and by the server", "thorough")]
 
 
 def setup(E):
@@ -19,6 +24,16 @@ def setup(E):
         "+replace": True, "+contracts": {k: v for k, v in E2.contracts.items() if k != qn},
         "+fields": {c: dict(d["fields"]) for c, d in E2.classdecl.items()},
         "+engine": {"monitors": {}, "ghost_types": dict(E.ghost_types, **E2.ghost_types), "inline_ok": set(E.inline_ok) | set(E2.inline_ok)}}))
+    # the other half: what the transport thread held back during the exchange goes out in _parse_newkeys - every message, once,
+    # under the lock and before 'clear to send' lets anybody else send
+    TARGETS[:] = [t for t in TARGETS if not (isinstance(t, tuple) and t[1] == "held-back-traffic-goes-out")]
+    TARGETS.insert(len(TARGETS) - 1, transport.newkeys_variant(E, "held-back-traffic-goes-out", {
+        "every_message_held_back_during_the_exchange_is_sent":
+            "ghost('flushed') == old(ghost('flushed')) + len(old(self._held_user_messages))",
+        "and_before_anybody_else_may_send":
+            "implies(not old(ghost('gate_open')), ghost('flushed_after_set') == old(ghost('flushed_after_set')))",
+        "then_sending_is_open_again": "ghost('gate_open')",
+        "nothing_stays_behind_to_be_sent_twice": "len(self._held_user_messages) == 0"}))
 
 
 CLAIMED = True
